@@ -82,12 +82,12 @@ def decDecimal (decimal : Bytes) : Bytes :=
 
 /-- PseudoVersion(major, older, t, rev) with `ts = t.UTC().Format(PseudoVersionTimestampFormat)`. -/
 def pseudoVersion (major older ts rev : Bytes) : Except Err Bytes :=
-  let major := if major.isEmpty then B "v0" else major
+  let major := if major.isEmpty then ([118, 48] /- "v0" -/ : Bytes) else major
   let segment := ts ++ [45] ++ rev
   let build := Semver.build older
   let older := Semver.canonical older
-  if older.isEmpty then .ok (major ++ B ".0.0-" ++ segment)                   -- form (1)
-  else if !(Semver.prerelease older).isEmpty then .ok (older ++ B ".0." ++ segment ++ build)  -- form (4), (5)
+  if older.isEmpty then .ok (major ++ ([46, 48, 46, 48, 45] /- ".0.0-" -/ : Bytes) ++ segment)                   -- form (1)
+  else if !(Semver.prerelease older).isEmpty then .ok (older ++ ([46, 48, 46] /- ".0." -/ : Bytes) ++ segment ++ build)  -- form (4), (5)
   else
     -- i := strings.LastIndex(older, ".") + 1 ; v, patch := older[:i], older[i:]
     let (v, patch) := match splitLast 46 older with
@@ -95,13 +95,13 @@ def pseudoVersion (major older ts rev : Bytes) : Except Err Bytes :=
       | some (a, b) => (a ++ [46], b)
     match incDecimal patch with
     | none => .error .panic
-    | some p => .ok (v ++ p ++ B "-0." ++ segment ++ build)                    -- form (2), (3)
+    | some p => .ok (v ++ p ++ ([45, 48, 46] /- "-0." -/ : Bytes) ++ segment ++ build)                    -- form (2), (3)
 
 /-- time.Time{}.UTC().Format("20060102150405") -/
-def zeroTimestamp : Bytes := B "00010101000000"
+def zeroTimestamp : Bytes := [48, 48, 48, 49, 48, 49, 48, 49, 48, 48, 48, 48, 48, 48]  -- "00010101000000"
 
 def zeroPseudoVersion (major : Bytes) : Except Err Bytes :=
-  pseudoVersion major [] zeroTimestamp (B "000000000000")
+  pseudoVersion major [] zeroTimestamp (([48, 48, 48, 48, 48, 48, 48, 48, 48, 48, 48, 48] /- "000000000000" -/ : Bytes))
 
 /-! ### IsPseudoVersion: hand-translated matcher for
     `^v[0-9]+\.(0\.0-|\d+\.\d+-([^+]*\.)?0\.)\d{14}-[A-Za-z0-9]+(\+[0-9A-Za-z-]+(\.[0-9A-Za-z-]+)*)?$` -/
@@ -128,7 +128,7 @@ def matchAlt2 (r2 : Bytes) : Bool :=
     let d3 := r4.takeWhile isDigit
     !d3.isEmpty &&
     match r4.dropWhile isDigit with
-    | 45 :: r => r == B "0." || hasSuffixB r (B ".0.")
+    | 45 :: r => r == ([48, 46] /- "0." -/ : Bytes) || hasSuffixB r (([46, 48, 46] /- ".0." -/ : Bytes))
     | _ => false
   | _ => false
 
@@ -139,7 +139,7 @@ def matchPrefixRE (p : Bytes) : Bool :=
     let d1 := r.takeWhile isDigit
     !d1.isEmpty &&
     match r.dropWhile isDigit with
-    | 46 :: r2 => r2 == B "0.0-" || matchAlt2 r2
+    | 46 :: r2 => r2 == ([48, 46, 48, 45] /- "0.0-" -/ : Bytes) || matchAlt2 r2
     | _ => false
   | _ => false
 
@@ -237,7 +237,7 @@ def pseudoVersionBase (v : Bytes) : Except Err Bytes :=
     let pre := Semver.prerelease p.base
     if pre.isEmpty then
       (if !p.build.isEmpty then .error .build else .ok [])
-    else if pre == B "-0" then
+    else if pre == ([45, 48] /- "-0" -/ : Bytes) then
       let base := trimSuffix p.base pre
       match splitLast 46 base with
       | none => .error .panic
@@ -246,8 +246,8 @@ def pseudoVersionBase (v : Bytes) : Except Err Bytes :=
         if patch.isEmpty then .error .negative
         else .ok (a ++ [46] ++ patch ++ p.build)
     else
-      if !hasSuffixB p.base (B ".0") then .error .panic
-      else .ok (trimSuffix p.base (B ".0") ++ p.build)
+      if !hasSuffixB p.base (([46, 48] /- ".0" -/ : Bytes)) then .error .panic
+      else .ok (trimSuffix p.base (([46, 48] /- ".0" -/ : Bytes)) ++ p.build)
 
 /-! ### the time step: Unix seconds → civil UTC fields → "20060102150405" layout -/
 
